@@ -227,6 +227,10 @@ def run(tier, seed):
     t0 = time.time()
     reports = xlate_simd.regenerate(xlate_simd.ISAS, core.REPO, log)
     xlate_validate.write_tables(reports, log)
+    for isa, r in reports.items():
+        if r.get("error"):
+            v.violation("translator-failed " + isa, {"kind": "harness-failure", "detail": r["error"],
+                        "note": "the headers of configuration %s could not be preprocessed / translated; the previous generated file was kept, the theorems are about stale definitions" % isa}, nofail=True)
     # only C08's own modules and the driver: a change that breaks another property's proofs must not alarm here
     ok_all, out = core.lake_build(targets=["FastorModel.Props.%s" % m for m in PROP_MODULES] + ["fmodel"], log=log)
     thms_by_mod = all_theorems()
@@ -295,7 +299,7 @@ def run(tier, seed):
             c08_gen.run(v, wd, reports, tier, seed, stats)
         if broken:
             # failing-input search: the enlarged box (more seeds, all optimisation levels) on the configurations the broken theorems are about
-            found = len(v.violations) > before or bool(v.known_hits)
+            found = len(v.violations) > before        # (known findings do not count: they fail on the unchanged tree too)
             if not found:
                 cfgs = sorted(set(ops_of_theorem(b)[0] or "avx2" for b in broken))
                 p2 = [(c, o, t, a) for (c, o, t, a) in thorough_plan() if c in cfgs and (a in NATIVE[c] or t == "kernels")]
